@@ -192,7 +192,7 @@ def fam_frag(counts, tier: str, rnd: random.Random) -> list[dict]:
                             out.append(sc)
                 # other configured timeouts (2 s, 3 s, 5 s): the exact remainder arrives any time before the re-armed timer,
                 # also seconds after the head - an absolute age limit shorter than the configured timeout shows here only
-                if split in (splits[0], splits[len(splits) // 2], splits[-1]) or tier != "quick":
+                if split in (splits[0], splits[len(splits) // 2], splits[-1]) or (tier != "quick" and (flen <= 40 or split % 8 == 0)):
                     for t in (4 * T, 6 * T, 10 * T):
                         for (d, d2) in ((1, t - 1), (1, t), (t - 1, 2 * t - 2), (2, t + 1), (1, 2), (1, 1 + 2 * T + 1)):
                             for ka in (True, False):
